@@ -13,7 +13,7 @@ func init() {
 	register(&PropDef{
 		ID:    "C28",
 		Pkgs:  []string{mdp},
-		Claim: "Decides the structural part: every key used by Get/Set/Append/Delete/New/Pairs/AppendToOutgoingContext and the context readers to index, insert into or delete from a metadata map is the strings.ToLower of the caller's key (or compared with EqualFold); every []string handed out by the context readers and Copy (returned directly or stored in the returned map) is freshly allocated (copyOf, make, or append onto a fresh slice) and never a slice taken from the metadata stored in the context; an insertion under a lower-cased key of a foreign map accumulates or happens only when the key is not present yet (no pair is lost when two keys differ only in case); the readers copy base values before appended pairs and Join appends in argument order; Pairs and AppendToOutgoingContext reject an odd number of arguments.",
+		Claim: "Decides the structural part: every key used by Get/Set/Append/Delete/New/Pairs/AppendToOutgoingContext and the context readers to index, insert into or delete from a metadata map is the strings.ToLower of the caller's key (or compared with EqualFold); every []string handed out by the context readers and Copy (returned directly or stored in the returned map) is freshly allocated (copyOf, make, or append onto a fresh slice) and never a slice taken from the metadata stored in the context; an insertion under a lower-cased key of a foreign map accumulates or happens only when the key is not present yet (no pair is lost when two keys differ only in case); the readers copy base values before appended pairs and Join appends in argument order; Pairs and AppendToOutgoingContext reject an odd number of arguments. The single-key context readers fall back to the case-insensitive scan of the base metadata on every miss path; reader and mutator arms are taken only under their stated conditions and their walks are never left early.",
 		NotDecided:  []string{"agreement of the fast ValueFrom… lookups with the full lookups for all inputs (value equality)", "relative order of values merged from keys that differ only in case (map iteration order)"},
 		Assumptions: []string{"strings.ToLower/EqualFold semantics"},
 		Technique:   "static analysis: sanitiser-before-sink on map keys, value-origin (fresh-slice) analysis through phis and append chains over go/ssa, check-then-insert guards",
